@@ -344,6 +344,22 @@ def c11():
     )
 
 
+# ------------------------------------------------------------------------------------------- C12
+@prop('C12')
+def c12():
+    qs = [Q('lockop_%d' % op, 'C12/ops.cpp', 6, defs={'VF_OP': op, 'VF_CLAIM': 12}, lockinst=True, timeout=600) for op in range(1, 14)]
+    return dict(
+        queries=qs,
+        level='other',
+        level_text='Lock-discipline obligations per API operation, decided by bounded symbolic execution of the instrumented IR: every library function that touches state shared between threads (expectation lists, sequence lists, call counters, limits of an expectation already visible in a sequence, unlinking of linked elements) executes with the global recursive mutex held, and the mutex is balanced on every path including the exceptional one. From this it follows BY ARGUMENT (not by the solver) that conflicting accesses are ordered by the one mutex and each operation is a sequence of at most two critical sections. Schedules themselves are not explored.',
+        technique='bounded symbolic execution (CBMC/SAT) of lock-instrumented IR of the real headers; obligations at the entry of shared-state functions',
+        bound='13 operations: accepted / rejected / sequenced call, creation with {IN_SEQUENCE, TIMES, RT_TIMES} in both orders, release (unsequenced, sequenced), is_satisfied/is_saturated, sequence::is_completed, REQUIRE_DESTRUCTION create/release, watched destruction (sequenced), mock destruction',
+        outside='exhaustive or randomised thread schedules, std::atomic semantics of the died flag, custom mutex configurations, sequence-object destruction concurrent with use (caller obligation); a sequential symbolic executor cannot quantify over interleavings',
+        assumptions=['vf/lockinst.py names the shared-state functions (listed in its header); private clause lists of an expectation under construction are not shared',
+                     'single global recursive mutex modelled as a depth counter'],
+    )
+
+
 # ------------------------------------------------------------------------------------------- C15
 def mismatch_queries(nn, quick_na=2, quick_ns=1):
     qs = []
